@@ -6,8 +6,8 @@ import impl_hist  # noqa: F401
 from framework import Case
 
 PROP = "C12"
-GENERATED = ['SharedState', 'Core', 'Wrapper']  # generated files this check's tie depends on
-LEAN_MODULES = ["Properties.C12", "Properties.Core", "Properties.CoreWrap"]
+GENERATED = ['SharedState', 'Core', 'Wrapper', 'SrcDecorate']  # generated files this check's tie depends on
+LEAN_MODULES = ["Properties.C12", "Properties.Core", "Properties.CoreWrap", "Properties.Prov.Decorate"]
 RULE = (
     "corpus; histories over functions and methods with a provider object / \"self\" / an object that does not implement the protocol / "
     "\"self\" on a function without self: provider mappings empty, binding used and unused names, conflicting with a literal, referred to "
